@@ -132,9 +132,46 @@ CLAIMED.update({
             "DESIGN.md 4.9, 5 (C20)", "cli"),
 })
 
+CLAIMED.update({
+    "C15": ("model_checking",
+            "TLA+ contract Assign.tla (optimum by brute force over injections, evaluated by TLC; TLC checks a brute-force "
+            "solver against the contract); TLC enumerates all small tables (AssignGen); real calls validated by TLC",
+            "Every table of shapes up to 2x3/3x2 (thorough 3x3) over weights {0,1,2,missing} is enumerated by TLC and "
+            "given to the real min_weight_bipartite_matching as ints, floats, bools and as ints shifted to every dtype "
+            "boundary; TLC validates each result: one-to-one, existing pairs only, true weights, and for complete tables "
+            "maximal cardinality and the brute-force minimum. Random tables up to 5x5 beyond. Exhaustive within the "
+            "bound; two known findings (float64 solver at >= 2^53).",
+            "Trusted: props/c15.py (weight kinds, base shifting: shifting all weights preserves optimal assignments), TLC.",
+            "DESIGN.md 4.12, 5 (C15)", "assign"),
+    "C18": ("model_checking",
+            "TLA+ Builder.tla: L1 Unfold/Expected + L2 work-stack machine, TLC checks refinement, sharing-is-not-a-cycle and "
+            "termination for all small graphs; TLC enumerates the graphs (BuilderGen), real conversions validated by TLC",
+            "All object graphs with up to 2-3 container objects (lists, tuples, dicts; slots pointing anywhere: trees, "
+            "DAGs, self/mutual cycles) are enumerated by TLC, materialised as Python objects and converted through "
+            "json.build_tree, BasicBuilder and pydiff.build_tree under dictionary strategies and cycle options; TLC "
+            "compares the path set of to_obj() and of copy().to_obj() with Unfold(G) and the cycle outcome with Expected.",
+            "Trusted: props/c18.py (materialisation, path set of plain values), TLC.", "DESIGN.md 4.8, 5 (C18)", "builder"),
+    "C19": ("exploration",
+            "TLA+ event contract Expr.tla (+ guards model checked); TLC enumerates expression programs over an adversarial "
+            "vocabulary (ExprGen); real evaluations over tripwired objects validated by TLC (ExprTrace)",
+            "The program space is open-ended: TLC enumerates all programs of depth 2 (thorough 3) of a grammar built around "
+            "known escape routes; each is parsed and evaluated by the real code over sentinels whose attribute reads are "
+            "recorded when the evaluator performs them, identifier resolutions are recorded by wrapping get_value, and "
+            "canaries detect leaked private state; TLC validates every distinct event trace. Exhaustive only within the "
+            "grammar bound, hence exploration.",
+            "Trusted: props/c19.py (tripwire frame rule, whitelist copy from the module docstring), TLC.",
+            "DESIGN.md 4.13, 5 (C19)", "expr"),
+})
+
 NOT_YET = "check not built yet in this round (planned: see DESIGN.md section 5)"
 
 ENGINES = [
+    {"name": "assign", "path": "spec/Assign.tla spec/AssignGen.tla spec/AssignTrace.tla props/c15.py", "serves_properties": ["C15"],
+     "kind_free_text": "TLC-enumerated weight tables, brute-force optimum evaluated by TLC on real results"},
+    {"name": "builder", "path": "spec/Builder.tla spec/BuilderGen.tla spec/BuilderTrace.tla props/c18.py", "serves_properties": ["C18"],
+     "kind_free_text": "TLA+ work-stack machine refining Unfold; TLC-enumerated object graphs materialised and converted"},
+    {"name": "expr", "path": "spec/Expr.tla spec/ExprMC.tla spec/ExprGen.tla spec/ExprTrace.tla props/c19.py", "serves_properties": ["C19"],
+     "kind_free_text": "TLC-enumerated expression programs evaluated over tripwired objects, events validated by TLC"},
     {"name": "cli", "path": "spec/Cli.tla spec/CliGen.tla spec/CliTrace.tla spec/Functional.tla spec/FunctionalTrace.tla "
                            "props/_cli.py props/c13.py props/c14.py props/c20.py harness/cli.py",
      "serves_properties": ["C02", "C13", "C14", "C20"],
